@@ -1,7 +1,6 @@
 (* Proofs/LedgerUtxo.v — C02: the unspent set is exactly created minus spent;
    nothing is spent twice; created ids are new. *)
-From Sky Require Import Base.Uint Model.ArithSpec Gen.Mathutil Model.Ledger Model.LedgerSpec
-  Proofs.UintLemmas Proofs.MathutilProofs Proofs.LedgerBasics Proofs.LedgerProofs Proofs.LedgerSupply.
+From Sky Require Import Base.Uint Model.Ledger Model.LedgerSpec Proofs.LedgerBasics Proofs.LedgerProofs.
 From Coq Require Import Lia ZifyBool Permutation.
 Open Scope Z_scope.
 
@@ -202,6 +201,6 @@ Lemma created_once g ops : genesis_wf g -> ids_consistent g (ops_txns ops) ->
   NoDup (created_ids (chain (run (init_state g) ops))).
 Proof. intros Hg Hc. destruct (reachable_utxo g ops Hg Hc) as [_ [I2 _]]. exact I2. Qed.
 
-Lemma unspent_ids_distinct g ops : genesis_wf g -> ops_in_range ops ->
+Lemma unspent_ids_distinct g ops : genesis_wf g ->
   NoDup (ids (utxo (run (init_state g) ops))).
-Proof. intros Hg Ho. destruct (reachable_supply g ops Hg Ho) as [H _]. exact H. Qed.
+Proof. intros [_ [Hn _]]. apply reachable_nodup. exact Hn. Qed.
